@@ -102,6 +102,26 @@ type Feature struct {
 	Build func(b *B) string
 	// Lossy marks features whose documented mapping is lossy (norm applies).
 	Lossy string
+	// Nest: every message and enum of the feature is declared INSIDE a holder message, after a map
+	// field of the holder (so the holder's synthetic map-entry type precedes them among its nested types).
+	Nest bool
+}
+
+// FeaturesNested returns the features declared as nested types of a holder message that starts with
+// a map field (ids get the suffix /nested-after-map): one per annotation value when sampled, all otherwise.
+func FeaturesNested(all bool, seed int) []Feature {
+	var out []Feature
+	seen := map[string]int{}
+	for _, f := range Features() {
+		seen[f.Ann]++
+		if !all && seen[f.Ann] != 1+seed%2 {
+			continue
+		}
+		f.Nest = true
+		f.ID += "/nested-after-map"
+		out = append(out, f)
+	}
+	return out
 }
 
 func card(f *spec.Field, c spec.Card, key spec.T) *spec.Field {
@@ -332,6 +352,18 @@ func Features() []Feature {
 		b.Msg("Root", spec.F("id", 1, spec.String),
 			spec.FM("billing", 2, b.FQ("Addr")).With(func(a *spec.Ann) { a.Flatten = spec.B(true); a.FlattenPrefix = spec.S("billing_") }),
 			spec.FM("shipping", 3, b.FQ("Addr")).With(func(a *spec.Ann) { a.Flatten = spec.B(true); a.FlattenPrefix = spec.S("shipping_") }))
+		return "Root"
+	}})
+
+	add(Feature{ID: "flatten/three-children-different-types/mixed-prefixes", Ann: "flatten_prefix", Kind: "message", Card: "three", Shape: "word", Build: func(b *B) string {
+		b.Msg("Addr", spec.F("street", 1, spec.String), spec.F("city", 2, spec.String))
+		b.Msg("Contact", spec.F("email", 1, spec.String), spec.F("phone", 2, spec.String))
+		b.Msg("Meta", spec.F("tag", 1, spec.String))
+		b.Msg("Root", spec.F("id", 1, spec.String),
+			spec.FM("shipping", 2, b.FQ("Addr")).With(func(a *spec.Ann) { a.Flatten = spec.B(true); a.FlattenPrefix = spec.S("ship_") }),
+			spec.FM("contact", 3, b.FQ("Contact")).With(func(a *spec.Ann) { a.Flatten = spec.B(true); a.FlattenPrefix = spec.S("contact_") }),
+			spec.FM("meta", 4, b.FQ("Meta")).With(func(a *spec.Ann) { a.Flatten = spec.B(true) }),
+			spec.F("note", 5, spec.String))
 		return "Root"
 	}})
 
